@@ -535,7 +535,9 @@ Proof.
   - (* R_G *)
     destruct c; simpl in Hc; try discriminate; try (neutral_with relfin; fail);
       (neutral_with ltac:(right; right; simpl; rewrite release_holder, release_lockq, release_tasks;
-                          repeat split; auto; eexists; exists P_WaitRunFinished; simpl; auto)).
+                          repeat split; auto;
+                          match goal with E : find_task _ _ = Some (?c0, _) |- _ => apply (ex_intro _ c0) end;
+                          exists P_WaitRunFinished; simpl; auto)).
   - (* Z_G1 *) destruct c; simpl in Hc; try discriminate. neutral_with ltac:(hput (CReset o) Z_G1b).
   - (* Z_G1b *)
     destruct (st_fsm s) eqn:Efs; try discriminate.
@@ -557,4 +559,75 @@ Proof.
   - (* P_WaitRunFinished *)
     destruct (run_finished s) as [[|]|]; auto. apply (CJ_finish_free s); auto. eapply not_pend; eauto.
   - apply (CJ_finish_free s); auto. eapply not_pend; eauto.
+Qed.
+
+(** ---- [cont_finished]: every started plugin unregisters itself ---- *)
+Definition cfv (s : state) :=
+  (nl_started s, cont_closed s, run_owner s, run_cont s, started_ev s, runt s, st_fsm s, tasks s).
+
+Lemma cf_fields n : forall s, cfv (cont_finished s n) = cfv s.
+Proof.
+  induction n as [|n IH]; intros s; simpl; auto.
+  destruct (filter _ (cont_plugins s)) as [|[t b] r]; auto. rewrite IH. reflexivity.
+Qed.
+
+Definition unstarted (x : nat * bool) : bool := negb (snd x).
+
+Lemma filter_snd_nil l : filter (fun x : nat * bool => snd x) l = [] -> filter unstarted l = l.
+Proof.
+  intros H. apply filter_all. intros [t b] Hin. unfold unstarted. simpl. destruct b; auto.
+  assert (Hi : In (t, true) (filter (fun x : nat * bool => snd x) l)) by (apply filter_In; auto).
+  rewrite H in Hi. destruct Hi.
+Qed.
+
+Lemma cf_plugins n : forall s, (length (filter (fun x => snd x) (cont_plugins s)) <= n)%nat ->
+  cont_plugins (cont_finished s n) = filter unstarted (cont_plugins s).
+Proof.
+  induction n as [|n IH]; intros s Hle; simpl.
+  - symmetry. apply filter_snd_nil. destruct (filter _ (cont_plugins s)); auto. simpl in Hle. lia.
+  - destruct (filter (fun x => snd x) (cont_plugins s)) as [|[t b] r] eqn:E.
+    + symmetry. apply filter_snd_nil. auto.
+    + rewrite IH; simpl.
+      * apply filter_filter_imp. intros [t' b']. unfold unstarted. simpl. destruct b'; simpl; auto; discriminate.
+      * rewrite filter_comm, E. simpl. rewrite Nat.eqb_refl.
+        assert (b = true).
+        { assert (Hi : In (t, b) (filter (fun x => snd x) (cont_plugins s))) by (rewrite E; left; auto).
+          apply filter_In in Hi. destruct Hi as (_ & Hi). exact Hi. }
+        subst b. simpl. simpl in Hle. pose proof (filter_length_le (fun x : nat * bool => negb (snd x && Nat.eqb (fst x) t)) r). lia.
+Qed.
+
+Lemma cf_flag n : forall s, enabled_of (trace s) = Some (nonempty (cont_plugins s)) ->
+  enabled_of (trace (cont_finished s n)) = Some (nonempty (cont_plugins (cont_finished s n))).
+Proof.
+  induction n as [|n IH]; intros s H; simpl; auto.
+  destruct (filter _ (cont_plugins s)) as [|[t b] r]; auto.
+Qed.
+
+Lemma cfv_fields s s' : cfv s' = cfv s ->
+  nl_started s' = nl_started s /\ cont_closed s' = cont_closed s /\ run_owner s' = run_owner s /\
+  run_cont s' = run_cont s /\ started_ev s' = started_ev s /\ runt s' = runt s /\
+  st_fsm s' = st_fsm s /\ tasks s' = tasks s.
+Proof. unfold cfv. intros E. inversion E. repeat split; reflexivity. Qed.
+
+(** the completion of the run: every started plugin goes, the flag follows *)
+Lemma CJ_run_finish s x :
+  FI s -> CJ s -> runt s = Some x -> early x = true -> fresh (runt s) = false -> CJ (run_finish s).
+Proof.
+  intros [HP HS] HC Hr He Hnf. pose proof (sc_early _ _ _ _ _ _ HS x Hr He) as Hfs.
+  unfold run_finish. simpl. rewrite Hfs.
+  set (s3 := log_hook (set_st_fsm (set_run_arg (set_started_ev s true) None) Finished) HFinished None None).
+  set (n := length (cont_plugins s3)).
+  destruct (cfv_fields _ _ (cf_fields n s3)) as (E1 & E2 & E3 & E4 & E5 & E6 & E7 & E8).
+  assert (Ep : cont_plugins (cont_finished s3 n) = filter unstarted (cont_plugins s)).
+  { rewrite cf_plugins; [reflexivity|]. unfold n. apply filter_length_le. }
+  pose proof HC as [h1 h2 h3 h4 h5 h6 h7].
+  constructor; simpl; rewrite ?E1, ?E2, ?E3, ?E4, ?E5, ?E8, ?Ep; simpl; auto.
+  - intros t' Hin. apply filter_In in Hin. destruct Hin as (Hin & _).
+    destruct (h2 _ Hin) as (c & p & Hf & Hc & Hp). exists c, p. simpl. rewrite E8. simpl.
+    repeat split; auto. destruct Hp as [-> | [-> | (_ & _ & _ & Hfr)]]; [left | right; left | congruence]; reflexivity.
+  - apply NoDup_filter. auto.
+  - intros t' Hin. apply filter_In in Hin. destruct Hin as (_ & Hu). discriminate.
+  - discriminate.
+  - intros Hcl. rewrite (h6 Hcl) in Hfs. discriminate.
+  - intros Hcl. rewrite <- Ep. apply cf_flag. simpl. auto.
 Qed.
